@@ -196,6 +196,9 @@ func DecodeFolderItem(b []byte) (FolderItem, error) {
 	if 2+size > len(b) {
 		return it, fmt.Errorf("item header announces %d bytes, have %d", size, len(b)-2)
 	}
+	if size < 4 {
+		return it, fmt.Errorf("item header announces %d bytes, fewer than type + path count", size)
+	}
 	it.IsFolder = b[3] == 1
 	body := b[4 : 2+size]
 	if len(body) < 2 {
